@@ -6,21 +6,25 @@ From KM Require Import Base.Bytes Base.Tactics Model.KeyStrength Model.Client.
 
 (* whatever the three signers hold, the only key material setupCerts puts into a request is
    the result of signer.Public() *)
-Lemma wire_only_public sg a : In a (wire_atoms (setup_wire sg)) ->
+Lemma wire2_only_public otp sg a : In a (wire_atoms (setup_wire2 otp sg)) ->
   a = AText \/ a = ASecret \/ a = public (sg_x509 sg) \/ a = public (sg_ssh sg) \/ a = public (sg_ed sg).
 Proof.
-  unfold wire_atoms, setup_wire, do_cert_request, create_key_body_request, authenticate_user, encode. simpl.
-  intros H. repeat (destruct H as [H|H]; [subst; auto 10|]). destruct H.
+  unfold wire_atoms, setup_wire2, do_cert_request, create_key_body_request, authenticate_user, second_factor, encode.
+  destruct otp; simpl; intros H; repeat (destruct H as [H|H]; [subst; auto 10|]); destruct H.
 Qed.
+
+Lemma wire_only_public sg a : In a (wire_atoms (setup_wire sg)) ->
+  a = AText \/ a = ASecret \/ a = public (sg_x509 sg) \/ a = public (sg_ssh sg) \/ a = public (sg_ed sg).
+Proof. apply wire2_only_public. Qed.
 
 Lemma make_signers_public_not_private :
   is_priv (public (sg_x509 make_signers)) = false /\ is_priv (public (sg_ssh make_signers)) = false /\
   is_priv (public (sg_ed make_signers)) = false.
 Proof. repeat split. Qed.
 
-Lemma no_private_on_wire : forall a, In a (wire_atoms (setup_wire make_signers)) -> is_priv a = false.
+Lemma no_private_on_wire : forall otp a, In a (wire_atoms (setup_wire2 otp make_signers)) -> is_priv a = false.
 Proof.
-  intros a H. destruct (wire_only_public _ _ H) as [->|[->|[->|[->| ->]]]]; reflexivity.
+  intros otp a H. destruct (wire2_only_public _ _ _ H) as [->|[->|[->|[->| ->]]]]; reflexivity.
 Qed.
 
 (* and each certificate request carries exactly the public half of the signer it was given *)
